@@ -88,14 +88,16 @@ def solve_event(sess, step, store):
             "shapes": [_shape_list(v) for v in V], "V": [_flat(v) for v in V]}
 
 
-def _init_arrays(m, init):
+def _init_arrays(m, init, int_init=False):
+    """int_init: continuous states whose initial values are all integers are passed as an integer array
+    (a user who types wealth = [10, 35] gets one)."""
     import jax.numpy as jnp
 
     out = {}
     for name, vals in init.items():
         v = MDL.var_by_name(m, name)
-        if v["kind"] == "disc":
-            out[name] = jnp.array([int(x) for x in vals])
+        if v["kind"] == "disc" or (int_init and all(F(x).denominator == 1 for x in vals)):
+            out[name] = jnp.array([int(F(x)) for x in vals])
         else:
             out[name] = jnp.array([float(F(x)) for x in vals])
     return out
@@ -111,7 +113,7 @@ def simulate_event(sess, step, store):  # noqa: C901
     p = MDL.params(step.get("mdl_params", m), leaf=step.get("leaf", "float"))
     init = {k: [F(x) if not isinstance(x, (list, tuple)) else F(*x) for x in v] for k, v in step["init"].items()}
     order = step.get("init_order") or list(init)
-    init_arr = _init_arrays(m, {k: init[k] for k in order})
+    init_arr = _init_arrays(m, {k: init[k] for k in order}, int_init=bool(step.get("int_init")))
     n_agents = len(next(iter(init.values())))
     targets = step.get("targets") or []
     kwargs = {"initial_states": init_arr, "seed": step.get("seed", 0)}
